@@ -53,7 +53,15 @@ G12sBad(r) ==
                 ELSE /\ r.rcSign = 0
                      /\ G12sSigInRange(rs[1], rs[2], q)
                      /\ IF HeavySign(r) THEN specSig.done /\ Eq(rs[1], specSig.r) /\ Eq(rs[2], specSig.s)
-                        ELSE Eq(rs[2], G12sSOf(rs[1], d, kd.v, e, q))
+                        \* cheap form: s fits the signature equation for the draw the library stopped at (its number of
+                        \* generator calls); a later draw than the first admissible one only in the constructed s = 0 scenarios
+                        \* (redraw = 1), where the heavy copy recomputes the whole loop
+                        ELSE LET len == (BitLen(q) + 7) \div 8
+                                 kj == Norm(ModPow2(Num(TapeChunk(r.k, r.drawsSign, len)), BitLen(q)))
+                             IN /\ r.drawsSign >= kd.tries /\ r.drawsSign <= 4
+                                /\ (r.drawsSign > kd.tries => Has(r, "redraw") /\ r.redraw = 1)
+                                /\ ~IsZero(kj) /\ Less(kj, q)
+                                /\ Eq(rs[2], G12sSOf(rs[1], d, kj, e, q))
       verOk == (dd.ok /\ kd.ok /\ r.rcSign = 0) => r.rcVerify = 0
       altOk(i) ==
         LET x == r.alts[i]
@@ -167,6 +175,8 @@ DstuPointBad(r) ==
       solvable == PIsZero(xp) \/ GTr(v, C.F) = 0
       rec == DPt(r.rec, no)
   IN IF PDeg(xp) >= m THEN Part(5, r.rcRec # 0)
+     \* a non-zero compressed value whose abscissa is 0 is not the compression of any point (6.10 divides by x^2): not judged
+     ELSE IF ~PIsZero(xp) /\ PIsZero(xr) THEN {}
      ELSE IF ~solvable THEN Part(5, r.rcRec # 0)
      ELSE Part(5, /\ r.rcRec = 0
                   /\ DstuRecoverOk(C, xp, rec[1], rec[2])
